@@ -1372,7 +1372,7 @@ impl Prop for C09 {
     }
     fn strategy(&self, tier: Tier) -> Option<(BoxedStrategy<Case>, u32)> {
         let (w_seq, w_laws, total) = match tier {
-            Tier::Quick => (60u32, 1u32, 1_016u32),
+            Tier::Quick => (100u32, 1u32, 6_060u32),
             Tier::Thorough => (250, 1, 50_200),
         };
         let s = prop_oneof![
